@@ -33,7 +33,7 @@ func c02Families(d, du int) []explore.Family {
 }
 
 func C02(tier string) int {
-	d, du, budget := 4, 2, 170*time.Second
+	d, du, budget := 4, 2, 300*time.Second
 	if tier == "thorough" {
 		d, du, budget = 6, 4, 25*time.Minute
 	}
